@@ -11,8 +11,9 @@ def IsBannerTarget (r : Req) (code : Int) (h : Hdr) : Prop :=
   r.Method = [71,69,84] ∧ Go.contains (Hdr.Get r.Header banner_acceptHeader) [116,101,120,116,47,104,116,109,108] = true ∧
   code = 200 ∧
   (∀ cd ∈ Hdr.values h banner_contentDispositionHeader, Go.contains (Go.toLower cd) [97,116,116,97,99,104,109,101,110,116] = false) ∧   -- no "attachment", in any case
-  (∃ ct ∈ Hdr.values h banner_contentTypeHeader,
-     Go.contains ct [116,101,120,116,47,104,116,109,108] = true ∨ Go.contains ct [97,112,112,108,105,99,97,116,105,111,110,47,120,104,116,109,108,43,120,109,108] = true)
+  (∃ ct ∈ Hdr.values h banner_contentTypeHeader,   -- the media type (what precedes the first ';'), not a parameter
+     Go.contains (Go.beforeSep ct [59]) [116,101,120,116,47,104,116,109,108] = true ∨
+     Go.contains (Go.beforeSep ct [59]) [97,112,112,108,105,99,97,116,105,111,110,47,120,104,116,109,108,43,120,109,108] = true)
 
 /-- the regenerated predicates say exactly that -/
 theorem predicates_exact (r : Req) (code : Int) (h : Hdr) :
@@ -125,6 +126,9 @@ theorem index_spec (s pat : Bytes) (i : Nat) (h : Go.index s pat = some i) :
     ShimBody call, so concurrent responses cannot see each other's bytes; the splice theorems above, which are
     about one response in isolation, therefore apply to every response of a concurrent run -/
 theorem shim_hook_shares_no_buffer : websockets_shimBodySharedBuffers = [] := by decide
+
+-- `application/json;x=text/html` (a parameter that mentions text/html) does not make a response frameable (D26)
+example : banner_isFrameableHTMLResponse 200 [(banner_contentTypeHeader, [[97,112,112,108,105,99,97,116,105,111,110,47,106,115,111,110,59,120,61,116,101,120,116,47,104,116,109,108]])] = false := by decide
 
 -- non-vacuity
 -- `application/json;x=html` is not an HTML type, `application/xhtml+xml;x=1` is
